@@ -151,6 +151,12 @@ Node slice(
 
 template<>
 std::vector<Node> split(const Node &x, std::uint32_t dim, std::uint32_t n) {
+  if (n == 0 || x.shape()[dim] % n != 0) {
+    // Rejects before the operator (with n return values) is created.
+    PRIMITIV_THROW_ERROR(
+        "Could not split the axis " << dim << " with size "
+        << x.shape()[dim] << " into " << n << " partitions.");
+  }
   return REGX(x, Split(dim, n), x);
 }
 
@@ -358,6 +364,12 @@ Node slice(const Node &x, std::uint32_t lower, std::uint32_t upper) {
 
 template<>
 std::vector<Node> split(const Node &x, std::uint32_t n) {
+  if (n == 0 || x.shape().batch() % n != 0) {
+    // Rejects before the operator (with n return values) is created.
+    PRIMITIV_THROW_ERROR(
+        "Could not split the batch with size "
+        << x.shape().batch() << " into " << n << " partitions.");
+  }
   return REGX(x, BatchSplit(n), x);
 }
 
